@@ -77,9 +77,14 @@ macro_rules! mat_of_quat {
 fn quat_rotations(d: &mut Drv) {
     let (b, k, ang) = token(d, true);
     let (ax, len) = pyth3(&mut d.rng);
+    // any non-zero axis: also very short and very long ones
+    let sk: i64 = [0, 0, -25, -30, 12][d.pick(5)];
+    let sc = if sk >= 0 { Q::new(1i128 << sk, 1) } else { Q::new(1, 1i128 << (-sk)) };
+    let (ax, len): (Vec<Q>, Q) = (ax.iter().map(|x| *x * sc).collect(), len * sc);
+    let bigpair = |l: Q| if l.d <= (1 << 30) && l.n.abs() <= (1 << 30) { json!([l.n as i64, l.d as i64]) } else { crate::q::inconclusive("length witness too large") };
     let q0: Vec<Q> = if d.pick(2) == 0 { vec![Q::int(0), Q::int(0), Q::int(0), Q::int(1)] } else { unitquat(&mut d.rng, 2) };
     let qq = quat(&q0);
-    let arg = |form: &str, v: &[Q], len: Q, a: &[Q]| json!({"form": form, "b": b, "hk": k / 2, "v": evs(v), "len": ev(len), "lenq": pairq(len), "a": evs(a)});
+    let arg = |form: &str, v: &[Q], len: Q, a: &[Q]| json!({"form": form, "b": b, "hk": k / 2, "v": evs(v), "len": ev(len), "lenq": bigpair(len), "a": evs(a)});
     let id = [Q::int(0), Q::int(0), Q::int(0), Q::int(1)];
     d.call("quat_rot", || arg("rotation_3d", &ax, len, &id), || eq_(&Quaternion::rotation_3d(ang, v3(&ax))));
     d.call("quat_rot", || arg("rotated_3d", &ax, len, &q0), || eq_(&qq.rotated_3d(ang, v3(&ax))));
@@ -197,7 +202,12 @@ fn quats(d: &mut Drv) {
     d.call("quat_magnitude", || json!({"p": evs(&un), "lenq": pairq(sabs)}), || ev(quat(&un).magnitude()));
     // rotation between two directions
     let (f, fl, t, tl) = from_to_pair(d);
-    let ft = |ty: &str| json!({"ty": ty, "from": evs(&f), "to": evs(&t), "fl": ev(fl), "tl": ev(tl), "flq": pairq(fl), "tlq": pairq(tl)});
+    // the rotation depends on the directions only: also very long and very short vectors
+    let (fk, tk): (i64, i64) = [(0, 0), (0, 0), (20, 20), (-20, -20), (22, -3)][d.pick(5)];
+    let p2 = |k: i64| if k >= 0 { Q::new(1i128 << k, 1) } else { Q::new(1, 1i128 << (-k)) };
+    let (f, fl, t, tl): (Vec<Q>, Q, Vec<Q>, Q) = (f.iter().map(|x| *x * p2(fk)).collect(), fl * p2(fk), t.iter().map(|x| *x * p2(tk)).collect(), tl * p2(tk));
+    let bigpair = |l: Q| if l.d <= (1 << 30) && l.n.abs() <= (1 << 30) { json!([l.n as i64, l.d as i64]) } else { crate::q::inconclusive("length witness too large") };
+    let ft = |ty: &str| json!({"ty": ty, "from": evs(&f), "to": evs(&t), "fl": ev(fl), "tl": ev(tl), "flq": bigpair(fl), "tlq": bigpair(tl)});
     d.call("from_to", || ft("quat"), || eq_(&Quaternion::rotation_from_to_3d(v3(&f), v3(&t))));
     d.call("from_to", || ft("mat3r"), || em(&rm::Mat3::<Q>::rotation_from_to_3d(v3(&f), v3(&t))));
     d.call("from_to", || ft("mat3c"), || em(&cm::Mat3::<Q>::rotation_from_to_3d(v3(&f), v3(&t))));
@@ -215,6 +225,13 @@ fn quats(d: &mut Drv) {
     // w = -1 exactly (a full turn: -identity, and rotation_x(2 pi)): sqrt(1 - w^2) = 0, "any axis would do"
     for nq in [Quaternion::from_xyzw(Q::int(0), Q::int(0), Q::int(0), Q::int(-1)), Quaternion::rotation_x(Q::pi_mul(2, 1)), Quaternion::rotation_3d(Q::pi_mul(-2, 1), v3(&ax))] {
         d.call("angle_axis", || json!({"q": eq_(&nq)}), || { let (a, axis) = nq.into_angle_axis(); json!({"ang": token_of(a), "axis": evs(&[axis.x, axis.y, axis.z])}) });
+    }
+    // small residual rotations on floats (an exact lane has no tiny angle whose half-angle sine is rational AND registered):
+    // a quaternion built from (angle, unit axis) with 0 < angle < pi must give back that angle (scaled 2^26) and that axis (scaled 2^20)
+    for (ang, axis) in [(1e-3f64, (0.6f64, 0.0f64, 0.8f64)), (4e-4, (0.0, 0.8, -0.6)), (2e-5, (0.36, 0.48, 0.8)), (0.3, (0.6, 0.8, 0.0)), (3.0, (0.0, 0.0, 1.0))] {
+        let sc = |x: f64| if x.is_finite() { (x * 1048576.0).round() as i64 } else { 1 << 40 };
+        let qf = Quaternion::<f64>::rotation_3d(ang, Vec3::new(axis.0, axis.1, axis.2));
+        d.call("angle_axis_f", || json!({"ang": sc(ang * 64.0), "axis": [sc(axis.0), sc(axis.1), sc(axis.2)]}), || { let (a, x) = qf.into_angle_axis(); json!({"ang": sc(a * 64.0), "axis": [sc(x.x), sc(x.y), sc(x.z)]}) });
     }
     let idq = Quaternion::<Q>::identity();
     d.call("angle_axis", || json!({"q": eq_(&idq)}), || { let (a, axis) = idq.into_angle_axis(); json!({"ang": token_of(a), "axis": evs(&[axis.x, axis.y, axis.z])}) });
